@@ -253,7 +253,7 @@ extern "C" void h_entry()
         else if constexpr (OP == OP_ELEM_ASSIGN)
         {
             usize how = verif_nondet_size(), i = verif_nondet_size(), eq = verif_nondet_size();
-            verif_assume(how < 3 && i < 2 && eq < 2);
+            verif_assume(how < 5 && i < 2 && eq < 2);
             how = verif_fork(how);
             i = verif_fork(i);
             eq = verif_fork(eq);
@@ -283,6 +283,26 @@ extern "C" void h_entry()
                 check_el(b, m.e[i], 400);
                 verif_assert(b.get_allocator().id == (POCMA ? ida : idb), 801);
                 verif_assert(verif_live_objs() <= vec_objs + 2 * trs(m.e[i]), 297);
+                inv<LT>(v, m, 700);
+            }
+            else if (how == 3 || how == 4)
+            {
+                // the target has been moved from (it holds no block) before it is assigned to
+                Elem sink(std::move(b));
+                check_el(sink, m.e[j], 400);
+                if (how == 3)
+                {
+                    b = std::move(a);
+                    verif_assert(b.get_allocator().id == (POCMA ? ida : idb), 801);
+                }
+                else
+                {
+                    b = a;
+                    check_el(a, m.e[i], 600);
+                    verif_assert(b.get_allocator().id == (POCCA ? ida : idb), 801);
+                }
+                check_el(b, m.e[i], 500);
+                check_el(sink, m.e[j], 800);
                 inv<LT>(v, m, 700);
             }
             else
